@@ -437,8 +437,25 @@ pub fn lane_main(prop: &Prop, ctx: &Ctx, out: &Path) {
     std::fs::write(out, serde_json::to_vec(&lr).unwrap()).expect("write lane result");
 }
 
+/// Remove scratch directories of processes that no longer exist.
+pub fn sweep_stale_scratch() {
+    if let Ok(rd) = std::fs::read_dir(crate::sandbox::scratch_base()) {
+        for e in rd.flatten() {
+            let n = e.file_name().to_string_lossy().to_string();
+            if let Some(rest) = n.strip_prefix("pv.") {
+                let pid: i32 = rest.split('.').next().and_then(|x| x.parse().ok()).unwrap_or(0);
+                let pid = if rest.starts_with("lanes.") { rest[6..].parse().unwrap_or(0) } else { pid };
+                if pid > 0 && unsafe { libc::kill(pid, 0) } != 0 {
+                    rm_rf(&e.path());
+                }
+            }
+        }
+    }
+}
+
 pub fn check_main(prop: &Prop, tier: Tier, seed: u64) -> i32 {
     let t0 = now_s();
+    sweep_stale_scratch();
     let lanes = (prop.lanes)(tier).max(1);
     let exe = std::env::current_exe().expect("current_exe");
     let tmp = crate::sandbox::scratch_base().join(format!("pv.lanes.{}", std::process::id()));
@@ -480,6 +497,7 @@ pub fn check_main(prop: &Prop, tier: Tier, seed: u64) -> i32 {
         }
     }
     rm_rf(&tmp);
+    sweep_stale_scratch();
     let wall = now_s() - t0;
 
     let known = load_known();
